@@ -1525,3 +1525,15 @@ package zygo
 // pushed, the form is neither (unquote x) nor (unquote-splicing x)
 //@ func (*Generator).generateSyntaxQuoteList
 //@ C15 assert unquote-forms-are-substituted @before call AddInstruction[1]: !(len(quotebody) == 2 && typeis(quotebody[0], *SexpSymbol) && (quotebody[0].(*SexpSymbol).name == "unquote" || quotebody[0].(*SexpSymbol).name == "unquote-splicing"))
+
+// C17: a write through a pointer replaces a record only by a record whose type OBJECT is the one
+// the pointer was taken to (identity, not a name or a derived pointer type: a redeclaration
+// makes a new type object under the old name).
+//@ func DerefFunction$1
+//@ C17 assert same-type-object @before call CloneFrom[*]: ptr.PointedToType == pt && arg1 == payload
+
+// C03: between taking the snapshot and attaching it to the closure nothing edits it
+//@ func (CreateClosureInstr).Execute
+//@ ghost snapTos := ret0.Stack.tos @after call NewClosing[0]
+//@ ghost snapStack := ret0.Stack @after call NewClosing[0]
+//@ C03 assert snapshot-attached-as-taken @before call SetClosing[0]: snap.Stack == snapStack && snap.Stack.tos == snapTos
